@@ -359,6 +359,34 @@ func nilPass(b *tbuf, t *Target, gt *getterTable) {
 			proto.Merge(rd, refNil.Interface())
 			return ""
 		})
+		check("proto.Merge-into", func() string {
+			// data stored INTO a nil / read-only message must not be dropped silently: the reference panics
+			// ("cannot merge into invalid ... message"); a non-empty source of the same type
+			src := nm.Type().New().Interface()
+			src.ProtoReflect().SetUnknown(protoreflect.RawFields{0x98, 0x3f, 0x01})
+			fds := md.Fields()
+			for i := 0; i < fds.Len(); i++ {
+				fd := fds.Get(i)
+				if fd.Cardinality() != protoreflect.Repeated && fd.Message() == nil && fd.ContainingOneof() == nil && fd.Kind() != protoreflect.EnumKind {
+					switch fd.Kind() {
+					case protoreflect.StringKind:
+						src.ProtoReflect().Set(fd, protoreflect.ValueOfString("x"))
+					case protoreflect.BytesKind:
+						src.ProtoReflect().Set(fd, protoreflect.ValueOfBytes([]byte("x")))
+					case protoreflect.BoolKind:
+						src.ProtoReflect().Set(fd, protoreflect.ValueOfBool(true))
+					}
+				}
+			}
+			refPanics, _ := guard(func() { proto.Merge(refNil.Interface(), src) })
+			if !refPanics {
+				return "" // the reference accepts it for this kind of nil: nothing to compare
+			}
+			if p, _ := guard(func() { proto.Merge(iface, src) }); !p {
+				return "proto.Merge into the nil / read-only message returned normally (the data was dropped silently), the reference panics"
+			}
+			return ""
+		})
 		check("proto.CheckInitialized", func() string {
 			if err := proto.CheckInitialized(iface); err != nil {
 				return err.Error()
